@@ -9,20 +9,23 @@ PROP = {'drive': ['Shape'],
                        'C07_stack_empty',
                        'C07_history_independent',
                        'C07_no_panic_partial',
-                       'C07_no_panic_nested_fixed',
+                       'C07_no_panic_nested_mergefree',
+                       'C07_no_panic',
+                       'C07_no_panic_history',
                        'C07_unguarded_panics'],
- 'areas': [('shape', 60000, 1500000)],
+ 'areas': [('shape', 70000, 1750000)],
  'rule': 'distinct case lines (lookup list, GDEF, lookup indices, history of 1-5 glyph sequences); '
-         'non-trivial = history with at least one non-empty sequence; every case is run on six streams '
-         '(V apply, D text, D hist, D safe, G stack, G guarded)',
- 'partial': ['C07_no_panic is proved for guarded lookup lists (a) without contextual subtables '
-             '(C07_no_panic_partial) and (b) with contextual subtables of all six formats, arbitrarily nested, '
-             'whose nested actions run only length-preserving lookups, i.e. no GSUB 2.1 / 4.1 as a nested '
-             'action (C07_no_panic_nested_fixed, via the stack well-formedness invariant). NOT proved: the full '
-             'statement C07_no_panic_full for guarded lists in which a nested action inserts or merges glyphs '
-             '(preservation of the invariant by fixStackInsert/fixStackMerge; this is where DESIGN 9 #33 was). '
-             'That class is evaluated on the real code for every generated guarded case by the direct stream '
-             'shape.safe (expected value "ok" for every guarded list) and by the correspondence stream',
+         'non-trivial = history with at least one non-empty sequence; every case is run on seven streams '
+         '(V apply, D text, D hist, D safe, D len, G stack, G guarded)',
+ 'partial': ['C07_no_panic is proved in full for every lookup list in the shape the reader delivers '
+             '(readerShapedLL = coverage indices inside the indexed arrays, context format 3 and chained context '
+             'format 3 with at least one input coverage, no nil pair-adjustment pointer, no unimplemented value '
+             'field): all six contextual formats, nested and self-referential, nested insertions and nested '
+             'ligature merges, any lookup/sequence/class/mark-class/filtering-set indices. Left open '
+             '(C07_no_panic_guarded_only, a Prop definition): API-built lists outside that shape which contain a '
+             'chained context format 3 with an EMPTY input sequence together with a nested ligature substitution; '
+             'C07_no_panic_partial / C07_no_panic_nested_mergefree cover the other API-built guarded lists; the '
+             'direct stream shape.safe expects "ok" on every guarded list, including the open class',
              'all subtable types with an apply method are modelled (GSUB 1.1 1.2 2.1 3.1 4.1 8.1, '
              'SeqContext1/2/3, ChainedSeqContext1/2/3, GPOS 1.1 1.2 2.1 2.2 3.1 4.1 6.1) except GPOS 5.1, whose '
              'apply is a stub returning -1 in the repository (declared unimplemented; cases containing it are '
@@ -41,10 +44,14 @@ PROP = {'drive': ['Shape'],
                            'fresh lists; after repair #11 no two live slices share a backing array'],
  'assumptions': ['the model mirrors the code as repaired for DESIGN 9 #11 #12 #13 #14(a,b) #15 #33; '
                  'corpus/C07/defects.case keeps the inputs that failed before the repairs',
-                 'Guarded (hypothesis of C07_no_panic_partial): coverage indices inside the indexed arrays '
-                 '(established by the reader through cov.Prune), context format 3 with at least one input '
-                 'coverage (reader rejects 0), no value record with an unimplemented field (excluded by the '
-                 'property text)']}
+                 'readerShapedLL (hypothesis of C07_no_panic): coverage indices inside the indexed arrays '
+                 '(established by the reader through cov.Prune), context format 3 and chained context format 3 with '
+                 'at least one input coverage (reader rejects 0), no nil *PairAdjust, no value record with an '
+                 'unimplemented field (excluded by the property text). Run on the real code at the excluded '
+                 'points: a coverage index outside its array, an empty context-3 input, a nil *PairAdjust and an '
+                 'unimplemented value field do panic (model and code agree, stream shape.apply on the '
+                 '"indices unconstrained" cases); a chained context 3 with empty input did not panic in any '
+                 'generated case - that exclusion is forced by the proof only (C07_no_panic_guarded_only)']}
 
 LEVEL = {'text': 'Proof: the engine model (Context.Apply, applyAtRecursively with the regenerated budget 64, '
          'applyAt, fixStackInsert, fixStackMerge, the lookup-flag filter, apply of GSUB 1.1-4.1/8.1, contexts '
@@ -52,12 +59,11 @@ LEVEL = {'text': 'Proof: the engine model (Context.Apply, applyAtRecursively wit
          'data, sequences, left-over stacks and call histories, to terminate within explicit fuel (len outer '
          'steps per lookup, 2*B+|stack| inner iterations), to permute the attached runes (List.Perm), to '
          'respect an explicit length bound, to leave the stack empty and hence to be history independent; '
-         'absence of panics is proved for guarded lists without contextual subtables. Tied to the Go code by '
+         'absence of panics is proved for every lookup list in the shape the reader delivers, through an invariant on the stack of nested actions preserved by fixStackInsert and fixStackMerge. Tied to the Go code by '
          'outcome-exact correspondence of call histories (API-built, reader-delivered and mutated tables) and '
          'by direct predicates evaluated on the real code: text multiset, fresh-context equality, no panic, '
          'time-out.',
  'note': 'Trusted: Lean kernel + 3 standard axioms; hand-written model mirrors the repaired Go code as checked '
-         'by sampled correspondence; no panic with contextual lookups is evidence by correspondence/direct '
-         'stream only.',
+         'by sampled correspondence.',
  'technique': 'Lean 4 proof over a functional state-machine model of the shaping engine (Hoare-style '
               'invariants through the fuelled loops) + differential correspondence of call histories'}
